@@ -45,6 +45,14 @@ mod session;
 mod tracker_client;
 mod tracker_resp;
 mod utils;
+#[cfg(rdest_verif)]
+pub mod verif;
+#[cfg(rdest_verif)]
+#[allow(missing_docs)]
+pub mod verif_api {
+    pub use crate::connection::Connection;
+    pub use crate::frame::Frame;
+}
 
 pub use crate::error::Error;
 
